@@ -446,6 +446,7 @@ void dump_prim(Prim const& p, Tol const& tol, VariantTransform const& trans = No
     };
     pb("bbox_int", css.local_bzone.interior);
     pb("bbox_ext", css.local_bzone.exterior);
+    pb("gbbox_ext", css.global_bzone.exterior);  // exterior box in the parent (transformed) frame
 }
 
 struct Case
@@ -563,6 +564,12 @@ void run_probes(Tokens& t, Case& cs, Tol const& tol)
 
 int main()
 {
+    // library log messages (e.g. "Failed to initialize geometry state") must not interleave with
+    // the protocol on stdout: send stderr to a file (VERIF_C09_STDERR) or discard it
+    {
+        char const* errf = std::getenv("VERIF_C09_STDERR");
+        if (!std::freopen(errf ? errf : "/dev/null", "w", stderr)) { /* keep going */ }
+    }
     Tokens t{std::cin};
     Tol tol = Tol::from_default();
     std::string k;
@@ -618,7 +625,7 @@ int main()
                 failed = true;
             }
         }
-        std::cout << "endcase\n";
+        std::cout << "endcase" << std::endl;
     }
     return 0;
 }
